@@ -234,18 +234,17 @@ inductive ObjVal
   | svc (s : Option Service)
   | ep (e : Option Endpoints)
   | sec (s : Option Secret)
-  | cls (c : Option String)
   | pod (p : Option Pod)
   | other
 deriving DecidableEq, Repr, Inhabited
 
+/-- the value of an object as far as the proved fragment reads it (IngressClass parameters and pods —
+drain-support — are outside: they read as `other`) -/
 def World.read (w : World) (n : Node) : ObjVal :=
   match n.kind with
   | .svc => .svc (w.findSvc n.name)
   | .ep => .ep (w.findEp n.name)
   | .sec => .sec (w.findSec n.name)
-  | .cls => .cls (w.findCls n.name)
-  | .pod => .pod (w.findPod n.name)
   | _ => .other
 
 /-! ## controller state -/
@@ -443,7 +442,8 @@ def outcome (rev : Rev) (w : World) (cur : Option Host) (d : Decl) : Outcome :=
   | .ruleHost =>
     match d.ing.className with
     | some c =>
-      { host := { x with live := true, trace := x.trace ++ [touch "host" [(⟨.cls, c⟩, .cls (w.findCls c))]] },
+      -- readIngressClass: the class is tracked; what is read from it (Parameters) is outside the model
+      { host := { x with live := true, trace := x.trace ++ [touch "host" []] },
         edges := [(⟨.cls, c⟩, iN), (iN, hN)] }
     | none => { host := { x with live := true, trace := x.trace ++ [touch "host" []] }, edges := [(iN, hN)] }
   | .tlsHost secret =>
@@ -614,7 +614,7 @@ def numericTarget (t : String) : Nat :=
   if n > 0 then n else if t = "web" then 8080 else if t = "adm" then 9090 else if t = "alt" then 8081 else 0
 
 /-- apply one operation: the new cluster and the events as the real predicates/handlers see them
-(validity is evaluated on the cluster AFTER the operation, like the informer cache) -/
+(validity depends on the IngressClasses only, which an Ingress event does not change) -/
 def applyOp (wb : World × Batch) (op : Op) : World × Batch :=
   let (w, b) := wb
   match op with
@@ -622,12 +622,12 @@ def applyOp (wb : World × Batch) (op : Op) : World × Batch :=
     match w.findIng i0.key with
     | none =>
       let w' := { w with ings := w.ings ++ [i0] }
-      if w'.valid i0 then (w', { addLink b ⟨.ing, i0.key⟩ with add := b.add ++ [i0] }) else (w', b)
+      if w.valid i0 then (w', { addLink b ⟨.ing, i0.key⟩ with add := b.add ++ [i0] }) else (w', b)
     | some old =>
       let i := { i0 with created := old.created }
       let w' := { w with ings := replaceBy Ingress.key i w.ings }
-      let ov := w'.valid old
-      let nv := w'.valid i
+      let ov := w.valid old
+      let nv := w.valid i
       if ov || nv then
         let b := addLink b ⟨.ing, i.key⟩
         if ov && nv then (w', { b with upd := b.upd ++ [i] })
@@ -639,7 +639,7 @@ def applyOp (wb : World × Batch) (op : Op) : World × Batch :=
     | none => (w, b)
     | some old =>
       let w' := { w with ings := w.ings.filter (·.key ≠ k) }
-      if w'.valid old then (w', { addLink b ⟨.ing, k⟩ with del := b.del ++ [k] }) else (w', b)
+      if w.valid old then (w', { addLink b ⟨.ing, k⟩ with del := b.del ++ [k] }) else (w', b)
   | .svcSet s => ({ w with svcs := replaceBy Service.key s w.svcs }, addLink b ⟨.svc, s.key⟩)
   | .svcDel k =>
     match w.findSvc k with
